@@ -70,6 +70,10 @@ def rule_W(rep, cd):
 def rule_M(rep, db):
     rep.rule("M1", "no local or parameter is read or moved again after being consumed by std::move / std::forward / "
                    "move_if_rvalue (flow-sensitive, constructor initialisers included)", floor=200)
+    rep.rule("M5", "move_if_rvalue<X>(e) / std::forward<X>(e): X is the type of the forwarding parameter e is rooted in (an rvalue first "
+                   "argument must not make a second, lvalue argument movable)", floor=100)
+    rep.rule("M6", "a forwarding parameter instantiated as a non-const lvalue reference is never modified (no mutating std algorithm over "
+                   "its elements, no mutating member call)", floor=50)
     rep.rule("M2", "storage reached through a forwarding reference is only moved through std::forward / "
                    "move_if_rvalue / move_iterator_if_rvalue, never through a raw std::move", floor=100)
     seen = set()
@@ -101,6 +105,31 @@ def rule_M(rep, db):
                         seen.add((k2, usite))
                         rep.fail("M1", k2, usite, F.describe(fn),
                                  why="`%s` is %s: consumed by %s at %s, used at %s" % (name, what, how, msite, usite))
+        if u.file_of(fn["primary"]).startswith("libs/"):
+            n5 = n6 = 0
+            h5, h6 = [], []
+            for sub in subs:
+                n5 += M.m5_function(u, sub, lambda name, site, X, pt: h5.append((name, site, X, pt)))
+                n6 += M.m6_function(u, sub, lambda name, site, what: h6.append((name, site, what)))
+            psite = F.primary_site(fn)
+            for (rid, n_, hits_) in (("M5", n5, h5), ("M6", n6, h6)):
+                if not n_ and not hits_:
+                    continue
+                key = "%s|%s" % (F.fn_name(fn), rid)
+                if hits_:
+                    for h in hits_:
+                        k2 = "%s|%s" % (F.fn_name(fn), h[0])
+                        if (rid, k2, h[1]) in seen:
+                            continue
+                        seen.add((rid, k2, h[1]))
+                        if rid == "M5":
+                            rep.fail("M5", k2, h[1], F.describe(fn),
+                                     why="`%s` (declared %s) is forwarded as %s: with an rvalue in the other position an lvalue argument is moved from" % (h[0], h[3], h[2]))
+                        else:
+                            rep.fail("M6", k2, h[1], F.describe(fn), why="lvalue argument `%s` is modified: %s" % (h[0], h[2]))
+                elif (rid, key, psite) not in seen:
+                    seen.add((rid, key, psite))
+                    rep.ok(rid, key, psite, F.describe(fn), how="own-parameter" if rid == "M5" else "unmodified", detail={"sites": n_})
         for sub in subs:
             hits = []
 
